@@ -81,6 +81,9 @@ MUTANTS = {
     'cli_exit_0_on_failure': ('C20', {'exit_status'}, [
         (MAIN, "rc = 1\ntry:\n    geophires.main()\n    rc = 0\nexcept SystemExit:", "rc = 0\ntry:\n    geophires.main()\nexcept Exception as e:\n    print(e)\nexcept SystemExit:")],
         'failure swallowed'),
+    'report_opened_before_validation': ('C20', {'report_written_on_failure'}, [
+        (G3, "    # read the parameters that apply to the model\n", "    open(model.outputs.output_file, 'w').close()  # make sure the output location is writable before the long calculation\n    # read the parameters that apply to the model\n")],
+        'a failing run leaves an (empty) report'),
     'cli_relative_output_resolved_after_chdir': ('C20', {'wrong_output_path', 'missing_json', 'stray_file'}, [
         (MAIN, "    sys.argv[2] = Path(parsed_args['output-file']).absolute()", "    sys.argv[2] = Path(parsed_args['output-file'])")], 'relative output lands in the package directory'),
     'duplicate_label_in_report': ('C10', {'order_dependent_parse', 'parse_mismatch'}, [
